@@ -423,17 +423,40 @@ const PRINT_FLAGS: [(&str, u16); 9] = [
     ("ZF", 1 << 6), ("AF", 1 << 4), ("PF", 1 << 2), ("CF", 1),
 ];
 
-/// Is this output a hex dump (every token two hex digits)?
+/// The bytes of a hex dump: the rows are the lines whose every token is two hex digits; a line
+/// that is something else (a heading, a summary) is not part of the dump and is left alone.
+/// None when there is text but not a single row.
 fn dump_tokens(out: &str) -> Option<Vec<u8>> {
     let mut v = Vec::new();
-    for t in out.split_whitespace() {
-        if t.len() == 2 && t.bytes().all(|b| b.is_ascii_hexdigit()) {
-            v.push(u8::from_str_radix(t, 16).unwrap());
+    let mut rows = 0;
+    let mut other = 0;
+    for line in out.split('\n') {
+        let toks: Vec<&str> = line.split_whitespace().collect();
+        if toks.is_empty() {
+            continue;
+        }
+        if toks.iter().all(|t| t.len() == 2 && t.bytes().all(|b| b.is_ascii_hexdigit())) {
+            rows += 1;
+            for t in toks {
+                v.push(u8::from_str_radix(t, 16).unwrap());
+            }
         } else {
-            return None;
+            other += 1;
         }
     }
+    if rows == 0 && other > 0 {
+        return None;
+    }
     Some(v)
+}
+
+/// the rows of a dump only (for the layout check)
+fn dump_rows(out: &str) -> Vec<usize> {
+    out.split('\n')
+        .map(|l| l.split_whitespace().collect::<Vec<&str>>())
+        .filter(|t| !t.is_empty() && t.iter().all(|x| x.len() == 2 && x.bytes().all(|b| b.is_ascii_hexdigit())))
+        .map(|t| t.len())
+        .collect()
 }
 
 /// Check the output of one print command against the probed state.
@@ -533,17 +556,21 @@ pub fn check_print_output(
                         ));
                     } else {
                         // layout: upper-case, 16 per row except the last
-                        if out.chars().any(|c| c.is_ascii_lowercase()) {
+                        let row_text: String = out
+                            .split('\n')
+                            .filter(|l| {
+                                let t: Vec<&str> = l.split_whitespace().collect();
+                                !t.is_empty() && t.iter().all(|x| x.len() == 2 && x.bytes().all(|b| b.is_ascii_hexdigit()))
+                            })
+                            .collect::<Vec<&str>>()
+                            .join("\n");
+                        if row_text.chars().any(|c| c.is_ascii_lowercase()) {
                             v.push(Violation::new(
                                 format!("C17:mem_layout{{{};{}}}", form, route),
                                 "hex digits are not upper-case".to_string(),
                             ));
                         }
-                        let rows: Vec<usize> = out
-                            .split('\n')
-                            .map(|l| l.split_whitespace().count())
-                            .filter(|c| *c > 0)
-                            .collect();
+                        let rows: Vec<usize> = dump_rows(out);
                         let bad = rows.iter().enumerate().any(|(i, c)| {
                             if i + 1 < rows.len() {
                                 *c != 16
